@@ -199,6 +199,33 @@ pub fn run(tier: Tier) -> i32 {
         }
     }
 
+    // long logs: records full of multi-byte characters, enough of them to span several read
+    // buffers, shifted byte by byte so that every buffer boundary falls inside a character once
+    {
+        let uuid = |n: u128| uuid::Uuid::from_u128(0x9999_0000_0000_0000_0000_0000_0000_0000 + n);
+        let mut long_traces = 0u64;
+        for (ci, ch) in ["é", "世", "😀", "a\u{301}"].iter().enumerate() {
+            for shift in 0..12usize {
+                let mut recs: Vec<Record> = vec![Record { kind: RecordKind::Lint { kind: LintKind::Spelling, context: vec![word(&"x".repeat(shift))] }, when: 1_700_000_000, uuid: uuid(0) }];
+                for k in 0..120u128 {
+                    recs.push(Record { kind: RecordKind::Lint { kind: LintKind::Style, context: vec![word(&ch.repeat(37)), word("teh")] }, when: 1_700_000_001 + k as i64, uuid: uuid(k + 1) });
+                }
+                long_traces += 1;
+                transitions += 1;
+                let problem = match catch(|| check_history(&recs, (recs.len() / 2, recs.len()))) {
+                    Ok(p) => p,
+                    Err(p) => Some(("panic".into(), json!({"msg": p.msg}))),
+                };
+                if let Some((sig, detail)) = problem {
+                    let d = detail.to_string();
+                    report.violation(Violation { sig: format!("long-log:{sig}"), case: json!({"engine":"E2","object":"stats-log","records": format!("1 record with a {shift}-letter context, then 120 records whose context is 37 x {:?}", ch), "character_class": ci, "shift": shift}), detail: json!({"detail": d.chars().take(300).collect::<String>()}) });
+                }
+            }
+        }
+        traces += long_traces;
+        report.set("long_logs", long_traces);
+    }
+
     // wasm path: records enter through apply_suggestion / import_stats_file
     let wasm_traces = wasm_round_trip(&mut report, tier);
     traces += wasm_traces;
